@@ -150,9 +150,11 @@ CLAIMS['C09'] = dict(
          'source table of the result is that intermediate table with, for each entry, the FIRST prefix of options.strip_prefixes that matches it at a path-component boundary (the prefix with a '
          'trailing "/" added unless it has one) cut off, unchanged when none matches: SourceMapBuilder::strip_prefixes is verified (for S = String, its only instantiation) over Verus\'s prophetic '
          'model of iter_mut, and the prefix list handed to it is proved to be the option list. With the "~" option the list gets at most one further, computed prefix (whatever find_common_prefix returns: the statement only asks for a stripped prefix), and only then. '
-         'PARTIAL: SourceMapHermes::rewrite (closure capturing a mutable reference: outside the Verus subset) is covered only by the BOUNDED stand-in hermes_rewrite, labelled bounded in evidence.',
+         'SourceMapHermes::rewrite (u23; its two map/collect chains written as loops, R-map-collect) is proved to return the rewritten map with per-source tables -- function maps and raw metadata -- '
+         'whose entry i is the old entry of the old source id that new source i remembers (nothing when that id had none), so that a token related to an old token as above resolves to the same '
+         'enclosing function (lemma_hermes_rewrite_keeps_scopes); the bounded stand-in hermes_rewrite runs the real closures.',
     note=_TB + 'Preconditions of the proved contract: load_local_source_contents off (the property itself restricts to in-memory options), fewer than 2^32-256 tokens. find_common_prefix itself is not under contract (its result is treated as an arbitrary optional string). '
-         'Assumed: String::push / ends_with / as_ref().to_string(), Arc<str>::starts_with(&String), arc[n..].into() after a matching prefix (prelude/shim_strip.rs). '
+         'Assumed: String::push / ends_with / as_ref().to_string(), Arc<str>::starts_with(&String), arc[n..].into() after a matching prefix (prelude/shim_strip.rs); Vec::get_mut(i).and_then(Option::take) (prelude/shim_take_at.rs). '
          'bounded stand-ins enumerate a stated finite space through the public API and are never counted as discharged obligations.',
     design_ref='DESIGN.md 5 C09')
 
@@ -250,7 +252,7 @@ NOT_COVERED = {
     'C19': ['the std adapter chains inside make_relative_path are behind assumed contracts (split/filter/collect, sort_by_key, repeat/take/collect, join); the bounded stand-in relpath exercises the real ones', 'find_common_prefix (the rewrite "~" option): not part of C19'],
     'C20': ['scroll::Pread internals and the derive(Pread) expansion (assumed contracts; exercised by the bounded stand-in ram_bundle)', 'UnbundleRamBundle (file-system based variant)', 'split_ram_bundle / SplitRamBundleModuleIter (composition with flatten and SourceMapBuilder)', 'that Iterator::next of RamBundleModuleIter is the inherent body verified here (R-trait-inherent: same text, emitted outside the trait impl)'],
     'C10': ['inputs with an empty stretch (two tokens at one position, column u32::MAX): the exactly-one-token clause is conditional on non-empty stretches (known finding D10 lives there); bounded stand-in adjust_dups', 'positions >= 2^30 (`as i32` arithmetic): outside the precondition'],
-    'C09': ['which prefix find_common_prefix computes for "~" (any string satisfies the statement; bounded stand-in rewrite exercises it)', 'load_local_source_contents (filesystem; excluded by the property)', 'SourceMapHermes::rewrite function-map permutation (bounded stand-in only)'],
+    'C09': ['which prefix find_common_prefix computes for "~" (any string satisfies the statement; bounded stand-in rewrite exercises it)', 'load_local_source_contents (filesystem; excluded by the property)'],
     'C05': ['dependencies (serde_json, url, bitvec, data-encoding, base64-simd, debugid)', 'sourceview.rs, js_identifiers.rs, detector.rs line scan, Display/Debug impls, ram_bundle.rs',
             'flatten (+ off_col / + off_line overflow, design-phase defect D6), rewrite, adjust_mappings, range bitfield writer (D4), decode_hermes', 'allocation in proportion to the input; wall-clock (only termination is proved)'],
     'C08': ['the agreement theorems quantify over index maps whose sections are as the property describes them at every level of nesting (offsets strictly increasing, distinct generated positions inside a section, every moved token before the next offset); other index maps: bounded stand-ins index_flatten / index_nested', 'the hypotheses of the agreement lemma are the postconditions of executed functions; no concrete witness is constructed inside Verus (Vec values cannot be built in spec code), the stand-ins index_flatten / index_nested run the real functions on such inputs'],
